@@ -542,6 +542,9 @@ def run(prog, rep, tier):
              'sorting loop); docstring and callers that gather a companion list agree with it')
     if check_permute_direction(prog, rep) < 2:
         raise AnalysisError('MPS-permute-direction: the call in from_product_mps_covering was not found')
+    from .c07 import check_leg_side_direction
+    rep.rule('LEG-side-direction', 'see C07')
+    check_leg_side_direction(prog, rep)
     rep.floor('MPS-coupled-order', 8)
     rep.floor('MPS-form-flow', 4)
     rep.assumptions += ['that the transformed state equals the dense image is NOT decided']
